@@ -236,17 +236,41 @@ func (r *run) sequence(rng *lib.RNG, steps int) {
 	r.sc.Begin()
 	r.lines = nil
 	r.hs = nil
-	if rng.Chance(1, 4) {
+	// one history in eight is about a LARGE map: it starts from NewMap with 33–70 pairs over 70 further keys (ints,
+	// strings, unsigned: distinct hashes, so as many buckets), and all keys are probed after every step. Every other
+	// history stays below twenty keys. (Seeded change c15k: above 32 buckets the mutable view shared the parent's
+	// bucket table until its first write, and the one-pair-bucket path of Delete wrote before taking its copy.)
+	big := rng.Chance(1, 8)
+	r.keys = keyPool()
+	if big {
+		for j := 0; j < 70; j++ {
+			switch j % 3 {
+			case 0:
+				r.keys = append(r.keys, types.NewInt(100+j))
+			case 1:
+				r.keys = append(r.keys, types.NewString(fmt.Sprintf("k%02d", j)))
+			default:
+				r.keys = append(r.keys, types.NewUint16(uint16(1000+j)))
+			}
+		}
+		c.Hit("history-large-map")
+	}
+	if big || rng.Chance(1, 4) {
 		// the constructor with arguments: NewMap(k, v, k, v, …) – the pairs are set one after the other, so
 		// a key that occurs more than once (also as a colliding key of another kind in between) keeps its
 		// LAST value and counts once (seeded change c15f stopped merging repeated keys)
 		n := rng.Range(1, 5)
+		if big {
+			n = rng.Range(33, 70)
+		}
 		d := &dict{}
 		var ps []types.Value
 		var toks []string
 		for j := 0; j < n; j++ {
 			k, v := lib.Pick(rng, r.keys), lib.Pick(rng, vals)
-			if j > 0 && rng.Chance(1, 2) {
+			if big {
+				k = r.keys[len(r.keys)-1-j] // distinct keys of the large family
+			} else if j > 0 && rng.Chance(1, 2) {
 				k = ps[2*rng.Intn(j)] // repeat an earlier key
 			}
 			ps = append(ps, k, v)
